@@ -1096,6 +1096,18 @@ class ContentElement(TTMLElement):
       (model_element.parent() is not None and model_element.parent().get_space() != model_element.get_space()):
       imsc_attr.XMLSpaceAttribute.set(xml_element, model_element.get_space())
 
+    # xml:lang is inherited: write it only where it differs from the language of the parent, or of the document for root elements
+
+    if model_element.parent() is not None:
+      inherited_lang = model_element.parent().get_lang()
+    elif model_element.get_doc() is not None:
+      inherited_lang = model_element.get_doc().get_lang()
+    else:
+      inherited_lang = ""
+
+    if model_element.get_lang() != inherited_lang:
+      imsc_attr.XMLLangAttribute.set(xml_element, model_element.get_lang())
+
     if imsc_class.has_region:
       if model_element.get_region() is not None:
         imsc_attr.RegionAttribute.set(xml_element, model_element.get_region().get_id())
